@@ -454,6 +454,18 @@ class Executor(Exec):
             elif not self.dry:
                 ex = st.fork()
                 ex.pc.append(w)
+                if spec.get("state", "unchanged") != "unchanged":
+                    # the callee may have changed its frame before raising: havoc it, assume its exceptional clauses
+                    before_x = ex.fork()
+                    before_x.writelog = None
+                    for path in c.modifies:
+                        self.havoc_path(ex, path, env)
+                    self.old_stack.append(before_x)
+                    try:
+                        for name, text in spec.get("ensures", []):
+                            ex.pc.append(self.spec_truth(ex, text, env, f"{c.key}.raises.{exc}.{name}"))
+                    finally:
+                        self.old_stack.pop()
                 self.exits.append(Exit("raise", ex, exc=exc, line=self.cur_line))
             if spec.get("must", True):
                 nots.append(z3.Not(w))
@@ -462,7 +474,13 @@ class Executor(Exec):
         before = st.fork()
         before.writelog = None
         for path in c.modifies:
-            self.havoc_path(st, path, env)
+            loc_h = self.havoc_path(st, path, env)
+            if loc_h is not None and loc_h[0] == "vfield":
+                key = ("field", loc_h[1], loc_h[2])
+                if path in c.rebinds:
+                    st.rebindcnt[key] = st.rebindcnt.get(key, 0) + 1   # a new list object; old references stay valid
+                else:
+                    st.inplace[key] = st.inplace.get(key, 0) + 1       # the callee may have mutated the list in place
         # 4. result
         rt = parse_type(c.returns)
         if c.result_is is not None:
@@ -504,6 +522,7 @@ class Executor(Exec):
         nv = self.flat.fresh(t, "hv_" + path.replace("self.", ""))
         st.pc += self.flat.facts(t, nv)
         self.write(st, loc, nv)
+        return loc if isinstance(cur, VSeq) else None
 
     # ---- value methods (sequences, maps, strings, struct formats) ------------------------------
     def call_value_method(self, st, recv, name, args, kwargs, node):
@@ -565,6 +584,11 @@ class Executor(Exec):
         return nv
 
     def seq_mutate(self, st, loc, cur: VSeq, name, args):
+        key = self.epoch_key(loc) if loc[0] in ("elem", "vfield") else loc
+        if loc[0] == "vfield":
+            key = ("field", loc[1], loc[2])
+        st.inplace[key] = st.inplace.get(key, 0) + 1
+        self.check_rebinds(st, key)
         tab = self.table_of(st, loc)
         if tab is not None and name in ("append", "remove"):
             from . import tables
@@ -588,12 +612,21 @@ class Executor(Exec):
         return self._seq_mutate(st, loc, cur, name, args)
 
     def _seq_mutate(self, st, loc, cur: VSeq, name, args):
+        if name == "append" and isinstance(cur.et, TInt) and cur.kind == "list" and isinstance(args[0], (VTuple, VStruct, VRef, VSeq)) \
+                and z3.is_int_value(z3.simplify(cur.ln)) and z3.simplify(cur.ln).as_long() == 0:
+            # `[]` gets its element type from the first append
+            et = self.type_of(self.deref(st, args[0]))
+            cur = VSeq([z3.Const(fresh_name("nil"), z3.ArraySort(z3.IntSort(), srt)) for srt in self.flat.sorts(et)],
+                       z3.IntVal(0), et, "list")
         if name == "append":
             v = self.coerce(st, args[0], cur.et, "append", typed_store=cur.kind)
             terms = self.flat.pack(cur.et, v)
             nv = VSeq([z3.Store(a, cur.ln, t) for a, t in zip(cur.comps, terms)], cur.ln + 1, cur.et, cur.kind)
-            if isinstance(cur.et, TInt) and cur.kind == "list":
+            if isinstance(cur.et, TInt) and cur.kind == "list" and not self.spec:
                 from . import tables
+                nm = z3.Const(fresh_name("lst"), nv.comps[0].sort())
+                st.pc.append(nm == nv.comps[0])
+                nv = VSeq([nm], nv.ln, nv.et, nv.kind)
                 st.pc += tables.fact_list_append(cur, nv, as_int(v))
             self.write(st, loc, nv)
             return VNone()
@@ -808,6 +841,8 @@ class Executor(Exec):
             if isinstance(v, VRef):
                 st.env[target.id] = v
             else:
+                if self.contract is not None and target.id in self.contract.locals and isinstance(v, VSeq):
+                    v = self.coerce(st, v, parse_type(self.contract.locals[target.id]), f"local {target.id}")
                 self.write(st, ("var", target.id), v)
             return [(st, "normal")]
         if isinstance(target, (ast.Tuple, ast.List)):
@@ -829,6 +864,13 @@ class Executor(Exec):
             name = mangle(self.defcls, target.attr) if self.defcls else target.attr
             obj = self.deref(st, base)
             if name in obj.fields:
+                if isinstance(v, VSeq):
+                    k_ = ("field", base.loc, name)
+                    st.rebindcnt[k_] = st.rebindcnt.get(k_, 0) + 1
+                    if getattr(v, "_alias", None) is None:
+                        st.rebound.add(k_)
+                    else:
+                        st.rebound.discard(k_)
                 self.write(st, ("vfield", base.loc, name), v)
                 return [(st, "normal")]
             setter = self.repo.find_setter(base.cls, target.attr) if base.cls in self.repo.classes else None
@@ -928,8 +970,11 @@ class Executor(Exec):
     def s_For(self, s, st):
         if s.orelse:
             raise Unsupported("for-else")
-        ordinal = self.loop_ord
-        self.loop_ord += 1
+        # syntactic ordinal of the loop in the function (source order), the same on every path
+        ordinal = getattr(self, "loop_ordinals", {}).get(id(s))
+        if ordinal is None:
+            ordinal = self.loop_ord
+            self.loop_ord += 1
         spec = (self.contract.loops.get(ordinal) if self.contract else None) or {"invariant": []}
         # the iterable: evaluated once; sequences reachable through a location are re-read (live)
         it_loc = None
